@@ -133,6 +133,19 @@ def run(tier, seed):
         items.append((big_base, regs + [{"kind": "convert", "input": "しんくるま", "context": "Normal", "expect_text_at": (ci_big, "新車")}, {"kind": "confirm", "session": 0, "cid": str(ci_big)},
                                         {"kind": "convert", "input": "しんくるま", "context": "Normal", "expect": "新車"}]))
         expect.append(([(nreg + 1, ("新車", "しんくるま"), "新車", [])], [("新車", "しんくるま")]))
+    # the three shapes on one fixed dictionary, each confirmed through the real session protocol (prefix+word, word+suffix, prefix+word+suffix,
+    # suffix written in kanji, with and without an unconverted tail)
+    for inp, want in [("しんくるま", ("新車", "しんくるま")), ("くるまてき", ("車的", "くるまてき")), ("しんくるまてき", ("新車的", "しんくるまてき")), ("しんくるまてきx", ("新車的", "しんくるまてき"))]:
+        rb = harness([{"op": "kkc_query", "dict": d_big, "context": "Normal", "freq": [], "input": inp, "n": 100}])[0]
+        ci = next((i for i, c in enumerate(rb.get("candidates", [])) if affix_shape(c["nodes"][1:-1]) == want), None)
+        if ci is None:
+            res.violation(f"no candidate of {inp!r} has the converted run {want[0]}", {"kind": "shape_missing", "input": inp})
+            continue
+        text = rb["candidates"][ci]["text"]
+        items.append((big_base, [{"kind": "convert", "input": inp, "context": "Normal", "expect_text_at": (ci, text)}, {"kind": "confirm", "session": 0, "cid": str(ci)},
+                                 {"kind": "convert", "input": want[1], "context": "Normal", "expect": want[0]}, {"kind": "restart"},
+                                 {"kind": "convert", "input": want[1], "context": "Normal", "expect": want[0]}]))
+        expect.append(([(1, want, text, [])], [want]))
     runs = run_histories(items, threads=12)
     nontrivial = 0
     for hr, (exp, learned) in zip(runs, expect):
